@@ -667,6 +667,7 @@ func c14CacheR(c *Ctx, R string) {
 		c14TemplateFields(c)
 		c14ConcurrencyChain(c)
 		c14DurationUnits(c)
+		c16KeyIsTheText(c, "C14-R3")
 	}
 	if R == "C14-R3" {
 		cacheExpiryWriters(c, R)
